@@ -4,6 +4,7 @@ From B2Z Require Import Model.Regions Proofs.RegionsProofs Proofs.RegionsRefine.
 From B2Z Require Import Base.NpPrims Gen.GenRegions Bridge.BridgeRegions.
 From B2Z Require Import Base.Prims Base.OffPrims Gen.GenOffsets Bridge.BridgeOffsets.
 From B2Z Require Gen.GenBins.
+From B2Z Require Import Base.RegionStr Gen.GenRefine Bridge.BridgeRefine.
 Import ListNotations.
 Open Scope Z_scope.
 
@@ -160,3 +161,52 @@ Example c04_instance :
   let rs := regions 3 (fun _ => true) [(0%nat, 1); (0%nat, 16385)] in
   check_C04 3 file (refine file rs) = true /\ length (refine file rs) = 3%nat.
 Proof. vm_compute. split; reflexivity. Qed.
+
+(* ---- TRANSLATOR TIE: Region.__str__, IndexedVcf.variants and _filter_empty_and_refine as regenerated from the source on
+   this run (translator/refine2coq.py -> Gen/GenRefine.v).  Under htslib's region-query contract (hts_contract: after
+   dropping the records that start before the region, the query returns, in file order, the records of the contig with
+   start <= POS <= end) the translated `variants` is the model's `query` and the translated refinement its `refine` ... *)
+Theorem translated_variants_is_query : forall hts file, hts_contract hts file -> forall r, gen_variants hts r = query file r.
+Proof. exact translated_variants_lemma. Qed.
+Print Assumptions translated_variants_is_query.
+
+Theorem translated_refine_is_the_model : forall hts file, hts_contract hts file -> forall rs, gen_refine hts rs = refine file rs.
+Proof. exact translated_refine_lemma. Qed.
+Print Assumptions translated_refine_is_the_model.
+
+(* ... the three region forms are printed as htslib's `contig`, `contig:start-`, `contig:start-end`, and the builder never
+   produces the fourth form (an end without a start), whose string would not be a region ... *)
+Theorem translated_region_strings : forall c s e,
+  gen_region_str c None None = [TContig c] /\
+  gen_region_str c (Some s) None = [TContig c; TColon; TNum s; TDash] /\
+  gen_region_str c (Some s) (Some e) = [TContig c; TColon; TNum s; TDash; TNum e].
+Proof. exact translated_region_strings_lemma. Qed.
+Print Assumptions translated_region_strings.
+
+Theorem builder_region_forms : forall ncontigs count_pos cuts r, In r (regions ncontigs count_pos cuts) -> rs r = None -> re r = None.
+Proof. exact regions_forms. Qed.
+Print Assumptions builder_region_forms.
+
+(* ... so the WHOLE partitioning as translated -- offsets table aside: cut loop, trailing contigs, region query with its
+   filter, refinement -- yields every record exactly once, with no empty region, ordered and disjoint *)
+Theorem translated_partition_pipeline_correct : forall hts ncontigs counts file c0 s0 cuts rs0,
+  hts_contract hts file ->
+  file_ok file -> cuts_inc ((c0, s0) :: cuts) ->
+  (last_contig ((c0, s0) :: cuts) < ncontigs)%nat ->
+  (forall x, In x file -> (fst x < ncontigs)%nat) ->
+  (forall x, In x file -> (c0 <= fst x)%nat /\ (fst x = c0 -> s0 <= snd x)) ->
+  (forall x, In x file -> (last_contig ((c0, s0) :: cuts) < fst x)%nat -> counts (Z.of_nat (fst x)) >? 0 = true) ->
+  map conv rs0 = gen_regions (Z.of_nat ncontigs) counts (rcs ((c0, s0) :: cuts)) (rss ((c0, s0) :: cuts)) ->
+  let rs := gen_refine hts rs0 in
+  flat_map (gen_variants hts) rs = flat_map (fun c => of_contig c file) (seq 0 ncontigs) /\
+  (forall r, In r rs -> gen_variants hts r <> []) /\
+  check_C04 ncontigs file rs = true.
+Proof.
+  intros hts ncontigs counts file c0 s0 cuts rs0 Hh H1 H2 H3 H4 H5 H6 E. cbv zeta.
+  rewrite (translated_refine_lemma hts file Hh rs0).
+  destruct (translated_partition_correct ncontigs counts file c0 s0 cuts rs0 H1 H2 H3 H4 H5 H6 E) as [A [B C]].
+  split; [|split; [|exact C]].
+  - rewrite <- A. clear - Hh. induction (refine file rs0) as [|r l IH]; [reflexivity|]. cbn [flat_map]. rewrite IH, (translated_variants_lemma hts file Hh r). reflexivity.
+  - intros r Hr. rewrite (translated_variants_lemma hts file Hh r). exact (B r Hr).
+Qed.
+Print Assumptions translated_partition_pipeline_correct.
